@@ -16,7 +16,7 @@ for s,mo in zip(scns,mos):
     if d:
         bad+=1
         if bad<=3: print("DIVERGE",s['index'],s['cfg'],"\n",d['fields'],d.get('op'),"\n impl",d.get('impl'),"\n model",d.get('model'),"\n ops",G.ops_of(s)[:d['step']])
-    for prop,what,line in s['violations']:
+    for prop,what,line,_ in s['violations']:
         allv[prop]+=1
         if allv[prop]<=2: print(prop,"|",what[:300],"| ops",G.ops_of(s)[:14])
 print("scen",len(scns),"div",bad,"viol",dict(allv),"unparsed",[l for l in out if l.startswith('?')][:3])
